@@ -122,6 +122,13 @@ def hoist_basic(d):
     if not m:
         raise RuntimeError('hoist_basic: struct type layout in cc.h not recognised')
     s = s[:m.start()] + '\tstruct {\n\t\tbool issigned, iscomplex;\n\t} ubasic;  /* hoisted out of the union by the verification snapshot */\n' + m.group(1) + s[m.end():]
+    # Third rewrite: the tagged unions `u` of struct type / struct decl / struct expr become structs in the snapshot (their members then
+    # occupy distinct storage).  A pointer read through `p->u.member.field` is otherwise a byte_extract that symex does not
+    # constant-propagate.  Sound as long as no code writes one member of these unions and reads another (the unions are discriminated by
+    # `kind`); the inner union `constant {u, i, f}` of struct expr, which IS used for punning, is left alone.  Guarded by the differential run.
+    s, nunion = re.subn(r'(?m)^\tunion \{$', '\tstruct {  /* union in /repo; struct in the verification snapshot */', s)
+    if nunion != 3:
+        raise RuntimeError('hoist_basic: expected 3 top-level unions in cc.h, found %d' % nunion)
     open(h, 'w').write(s)
     for f in sorted(os.listdir(d)):
         if f.endswith('.c') or f.endswith('.h'):
